@@ -467,6 +467,130 @@ def raw_traces(bs, mode, enc):
 
 
 # ------------------------------------------------------------------------------------------------
+# cut-short UTF-8: byte texts in which a multi-byte character is truncated (inside the quantifier: "invalid/truncated UTF-8")
+# ------------------------------------------------------------------------------------------------
+class Broken(Text):
+    """pieces: whole characters (str of length 1) and proper prefixes of the UTF-8 form of a character (bytes).  Every byte of a
+    prefix is a character of its own: one column, shown as '?' (the str the bytes are compared with has '?' there)."""
+
+    def __init__(self, pieces):
+        self.enc, self.mode, self.pieces = "utf-8", "utf8", pieces
+        self.s, self.bs, self.chars, self.bad = "", b"", [], []
+        for p in pieces:
+            if isinstance(p, str):
+                b = p.encode("utf-8")
+                self.s += p
+                self.chars.append({"cp": ord(p), "w": table_width(p), "b": len(b), "enc": list(b)})
+                self.bad.append(0)
+            else:
+                for x in p:
+                    self.s += "?"
+                    self.chars.append({"cp": 63, "w": 1, "b": 1, "enc": [x]})
+                    self.bad.append(1)
+            self.bs += p.encode("utf-8") if isinstance(p, str) else p
+        self.offs = [0]
+        for c in self.chars:
+            self.offs.append(self.offs[-1] + c["b"])
+        self.cum = [0]
+        for c in self.chars:
+            self.cum.append(self.cum[-1] + c["w"])
+
+    def trace(self, ev, kind="broken"):
+        tr = Text.trace(self, ev, kind)
+        tr["bad"] = self.bad
+        tr["pieces"] = [p if isinstance(p, str) else list(p) for p in self.pieces]
+        return tr
+
+
+def pieces_of(wire):
+    return [p if isinstance(p, str) else bytes(p) for p in wire]
+
+
+def broken_events(t, rng, full):
+    """Width (with every split), offset for every column, is-wide; trims: all of them on short texts, sampled otherwise."""
+    n = len(t.s)
+    ev = []
+    for i in range(n + 1):
+        for j in range(i, n + 1):
+            w = t.cum[j] - t.cum[i]
+            ev.append(ev_width(t, i, j))
+            for col in range(w + 2):
+                ev.append(ev_pos(t, i, j, col))
+            ranges = [(sc, ec) for sc in range(w) for ec in range(sc + 1, w + 1)]
+            if not (full and n <= 4):
+                ranges = rng.sample(ranges, min(len(ranges), 2))
+            ev += [ev_trim(t, i, j, sc, ec) for sc, ec in ranges]
+    ev += [ev_wide(t, i) for i in range(n)]
+    w = t.cum[n]
+    ranges = [(sc, ec) for sc in range(w) for ec in range(sc + 1, w + 1)]
+    ev += [ev_trimcs(t, sc, ec) for sc, ec in (ranges if n <= 4 else rng.sample(ranges, min(len(ranges), 6)))]
+    return ev
+
+
+def broken_texts(rng, quick):
+    """Every proper prefix of the UTF-8 form of the multi-byte characters of the alphabet: alone, before / after / between ASCII, next to a
+    wide and to a zero-width character, two prefixes in a row; then random mixtures of characters and prefixes."""
+    out = []
+    chars = [c for cls in ALPHA["utf-8"].values() for c in (cls[:1] if quick else cls) if len(c.encode("utf-8")) > 1]
+    pre = [c.encode("utf-8")[:k] for c in chars for k in range(1, len(c.encode("utf-8")))]
+    for p in pre:
+        out += [[p], ["a", "b", p], [p, "a"], ["a", p, " ", "b"], ["字", p], [p, "字", "a"], ["e", "́", p, "x"]]
+        out += [[p, rng.choice(pre)], ["a", rng.choice(pre), p, "b"]]
+    every = [c for cls in ALPHA["utf-8"].values() for c in cls]
+    for _ in range(60 if quick else 400):
+        out.append([rng.choice(pre) if rng.random() < 0.4 else rng.choice(every) for _ in range(rng.randint(2, 5))])
+    return out
+
+
+# ------------------------------------------------------------------------------------------------
+# long rows: a full screen row (and more) of double-byte characters without ASCII in between (and the same rows in UTF-8)
+# ------------------------------------------------------------------------------------------------
+def long_texts(rng, enc, quick):
+    """Rows of 33..70 multi-byte characters: one unbroken run, a run after / around ASCII, runs of high-trail-byte characters only."""
+    al = ALPHA[enc]
+    hi = al.get("dbl_hi") or al.get("wide3")
+    both = hi + al.get("dbl_lo", "")
+    out = []
+    for n in ((33, 40, 48) if quick else (32, 33, 34, 40, 48, 65)):
+        out.append("".join(rng.choice(hi) for _ in range(n)))
+        out.append("a" + "".join(rng.choice(hi) for _ in range(n)))
+        if n == 40 or (not quick and n < 40):
+            out.append("".join(rng.choice(both) for _ in range(n)))
+            out.append("".join(rng.choice(hi) for _ in range(n)) + " " + "".join(rng.choice(hi) for _ in range(n)) + "b")
+    return out
+
+
+def long_events(t, rng, k):
+    """Calls whose offsets / columns lie far into the row (beyond byte 64 of a run) as well as near its start."""
+    n = len(t.s)
+    W = t.cum[n]
+    ev = [ev_width(t, 0, n)]
+    far = lambda: rng.randint(min(n, 31), n)   # noqa: E731
+    for _ in range(k):
+        i = rng.choice([0, 0, 0, 1, rng.randint(0, n)])
+        j = rng.choice([n, n, far()])
+        if j < i:
+            i, j = j, i
+        w = t.cum[j] - t.cum[i]
+        ev.append(ev_pos(t, i, j, rng.randint(max(0, w - 24), w + 1)))
+        ev.append(ev_pos(t, i, j, rng.randint(0, w + 1)))
+        if i < j:
+            ev.append(ev_step(t, i, j))
+        if w >= 2:
+            ec = rng.randint(max(1, w - 20), w)
+            ev.append(ev_trim(t, i, j, rng.randint(0, ec - 1), ec))
+            sc = rng.randint(max(0, w - 20), w - 1)
+            ev.append(ev_trim(t, i, j, sc, rng.randint(sc + 1, w)))
+        if W >= 2:
+            ec = rng.randint(max(1, W - 20), W)
+            ev.append(ev_trimcs(t, rng.randint(0, ec - 1), ec))
+        if t.mode == "wide" and i < n:
+            for pos in (rng.randrange(t.offs[i], t.offs[n]), rng.randrange(max(t.offs[i], t.offs[n] - 24), t.offs[n])):
+                ev.append(ev_wdb(t, i, pos))
+    return ev
+
+
+# ------------------------------------------------------------------------------------------------
 # per-code-point sweep (UTF-8 mode): str path against bytes path
 # ------------------------------------------------------------------------------------------------
 def cp_event(cp):
@@ -606,6 +730,18 @@ def work(item):
                 tr = switch_trace(spec)
                 if tr is not None:
                     out.append(tr)
+        elif kind == "long":    # full rows of multi-byte characters
+            _, _, texts, seed, k = item
+            rng = random.Random(seed)
+            for txt in texts:
+                t = Text(txt, enc)
+                out.append(t.trace(long_events(t, rng, k)))
+        elif kind == "broken":  # cut-short multi-byte characters inside UTF-8 byte texts
+            _, _, texts, seed, full = item
+            rng = random.Random(seed)
+            for pieces in texts:
+                t = Broken(pieces)
+                out.append(t.trace(broken_events(t, rng, full)))
         elif kind == "raw":     # invalid / truncated input: beyond the property (DIVERGENCE only)
             for bs in item[2]:
                 out += raw_traces(bs, MODE_OF[enc], enc)
@@ -639,6 +775,11 @@ def work_items(chk, quick):
     for enc, pool in (("utf-8", INVALID_UTF8), ("euc-jp", INVALID_WIDE), ("big5", INVALID_WIDE)):
         extra = [bytes(rng.choice([0x61, 0x80, 0xBF, 0xC3, 0xE5, 0xF0, 0xA4, 0x40, 0x97]) for _ in range(rng.randint(1, 5))) for _ in range(20 if quick else 400)]
         items.append(("raw", enc, pool + extra))
+    for enc in ("euc-jp", "big5", "gbk", "utf-8"):
+        lt = long_texts(rng, enc, quick)
+        items += [("long", enc, lt[k:k + 10], rng.randrange(1 << 30), 6 if quick else 10) for k in range(0, len(lt), 10)]
+    bt = broken_texts(rng, quick)
+    items += [("broken", "utf-8", bt[k:k + 60], rng.randrange(1 << 30), not quick) for k in range(0, len(bt), 60)]
     # the per-code-point sweep
     if quick:
         cps = set(table_boundaries())
@@ -672,7 +813,7 @@ def _sig(tr, e, why, l=0):
     sig = {"kind": tr["kind"], "mode": vw["mode"], "enc": vw["enc"], "op": e["op"], "exc": e.get("exc", "")}
     if tr["kind"] == "switch":
         sig["same"] = tr["same"]
-    if tr["kind"] in ("text", "enc", "switch"):
+    if tr["kind"] in ("text", "enc", "switch", "broken"):
         ws = [c["w"] for c in vw["chars"]]
         sig["has_wide"] = 2 in ws
         sig["has_zero_width"] = 0 in ws
@@ -690,6 +831,8 @@ def _replay_of(tr, e, l=0):
         rp["cps"] = [c["cp"] for c in tr["chars"]]
     if tr["kind"] == "raw":
         rp["raw"] = tr["raw"]
+    if tr["kind"] == "broken":
+        rp["pieces"] = tr["pieces"]
     return rp
 
 
@@ -729,6 +872,18 @@ class Coverage:
                 continue
             multi = any(c["b"] > 1 or c["w"] != 1 for c in tr["chars"])
             key = tuple(c["cp"] for c in tr["chars"])
+            if kind == "broken":
+                inc("broken.texts")
+                runs = [len(p) for p in tr["pieces"] if not isinstance(p, str)]
+                for r in set(runs):
+                    inc(f"antecedent.broken_prefix_of_{r}_bytes")
+                bkey = tuple(x for c in tr["chars"] for x in c["enc"])
+                for e in tr["ev"]:
+                    inc(f"broken.{e['op']}")
+                    self.nontriv.add(hash(("broken", bkey, e["op"], e.get("i"), e.get("j"), e.get("col", e.get("sc")), e.get("ec"))))
+                    if e["op"] == "width" and any(tr["bad"][e["i"]:e["j"]]) and max(runs, default=0) >= 2:
+                        inc("antecedent.broken_width_over_cut_character_of_2+_bytes")
+                continue
             if kind == "text" and len(key) == 3 and "text" not in self.samples and sorted(c["w"] for c in tr["chars"]) == [0, 1, 2]:
                 self.samples["text"] = {"enc": m, "chars": tr["chars"], "events": [e for e in tr["ev"] if e["op"] in ("pos", "trim")][5:8]}
             if kind == "enc" and len(key) == 3 and "enc" not in self.samples and tr["mode"] == "narrow" and any(c in DEC_SET for c in key):
@@ -749,6 +904,13 @@ class Coverage:
                         inc("antecedent.step_over_multi_unit_character")
                     if op == "wdb":
                         inc(f"antecedent.within_double_byte={e['r']}")
+                        o0 = sum(c["b"] for c in tr["chars"][:e["i"]])
+                        bs = [x for c in tr["chars"] for x in c["enc"]]
+                        if e["pos"] - o0 >= 64 and all(x >= 0x80 for x in bs[e["pos"] - 64:e["pos"]]):
+                            inc("antecedent.within_double_byte_64+_bytes_into_a_run")
+                    if op in ("trim", "pos") and m != "utf-8" and tr["mode"] == "wide" and len(tr["chars"]) > 32:
+                        if (e["ec"] if op == "trim" else e["col"]) > 64:
+                            inc(f"antecedent.{op}_beyond_column_64_of_a_double_byte_row")
                 elif kind == "enc":
                     if any(c in DEC_SET for c in key) and tr["mode"] != "utf8" and not e["ctl"] and e["src"] == "str":
                         inc("antecedent.encode_with_dec_character")
@@ -807,7 +969,11 @@ class Coverage:
                      "antecedent.switch_back_to_an_earlier_encoding", "antecedent.switch_same_byte_range_measured_under_two_encodings",
                      "switch.bytes.readings_narrow+utf8", "switch.bytes.readings_utf8+wide", "switch.bytes.readings_narrow+wide",
                      "switch.str.readings_narrow+utf8", "antecedent.switch_encode_dec_character_utf8",
-                     "antecedent.switch_encode_dec_character_dec_special", "switch.bytes.trim", "switch.bytes.pos", "switch.bytes.step"):
+                     "antecedent.switch_encode_dec_character_dec_special", "switch.bytes.trim", "switch.bytes.pos", "switch.bytes.step",
+                     "antecedent.within_double_byte_64+_bytes_into_a_run", "antecedent.trim_beyond_column_64_of_a_double_byte_row",
+                     "antecedent.pos_beyond_column_64_of_a_double_byte_row",
+                     "antecedent.broken_prefix_of_1_bytes", "antecedent.broken_prefix_of_2_bytes", "antecedent.broken_prefix_of_3_bytes",
+                     "antecedent.broken_width_over_cut_character_of_2+_bytes", "broken.pos", "broken.trim", "broken.trimcs"):
             if not self.counts.get(need):
                 chk.vacuity.append(need)
         for k in ("text", "enc", "sweep", "switch"):
@@ -892,7 +1058,10 @@ def run(chk):
         "three-byte EUC (SS3), half-width katakana (SS2) and ambiguous-width Greek/Cyrillic/box characters are outside the model",
         "single-byte encoding: ISO 8859-1 printable characters (C1 controls and encodings with combining marks such as ISO 8859-11 are outside the model)",
         "calls are made with offsets on character boundaries and 0 <= start_col < end_col <= width for trimming (what urwid's canvas code passes); "
-        "offsets inside a character and invalid / truncated byte strings are exercised but only reported as DIVERGENCE (the property speaks of a string and its encoded form)",
+        "offsets inside a character and arbitrary invalid byte strings are exercised but only reported as DIVERGENCE (the property speaks of a string and its encoded form)",
+        "cut-short UTF-8 (kind 'broken': proper prefixes of multi-byte characters inside otherwise well-formed byte texts): every byte outside a well-formed "
+        "character is a character of one column (urwid's '?'); width, additivity, offset for a column, is-wide and trimming are judged by the clauses of valid "
+        "text with offsets on those boundaries; move_next_char / move_prev_char / decode_one_right are not asked there",
         "U+25AE (urwid maps it to '_' of the alternate charset) is not a VT100 line-drawing character and is not demanded",
         "switch histories: a byte string counts as a text under an encoding when the Python codec decodes it strictly, re-encodes it to the same "
         "bytes character by character, no character is a control character and (double-byte / single-byte modes) every character is as many "
@@ -914,7 +1083,10 @@ def replay(chk, path):
             trs = raw_traces(bytes(rp["raw"]), rp["mode"], rp["enc"])
             tr = next(t for t in trs if t["ev"][0]["op"] == op)
         else:
-            t = Text("".join(chr(c) for c in rp["cps"]), rp["enc"], keep_width=rp["kind"] == "enc")
+            if rp["kind"] == "broken":
+                t = Broken(pieces_of(rp["pieces"]))
+            else:
+                t = Text("".join(chr(c) for c in rp["cps"]), rp["enc"], keep_width=rp["kind"] == "enc")
             if op == "enc":
                 ev = ev_enc(t, e0["src"], "".join(map(chr, e0["pre"])), "".join(map(chr, e0["post"])))
             elif op in ("width", "step"):
